@@ -84,12 +84,18 @@ class Oracle:
         self.keep: list[Any] = []
         self.trace: list[list] = []
         self.installed = False
+        # pattern groups inside the regular-expression subset: id -> ASTs (evaluated by the model itself)
+        self.rxs: dict[int, list] = {}
 
     def pid(self, patterns: Any) -> int:
         k = id(patterns)
         if k not in self.ids:
             self.ids[k] = len(self.ids) + 1      # 0 is reserved for float()
             self.keep.append(patterns)
+            regs = getattr(patterns, 'regexps', None)
+            g = rx_group(list(regs)) if regs else None
+            if g is not None:
+                self.rxs[self.ids[k]] = g
         return self.ids[k]
 
     def install(self) -> None:
@@ -119,6 +125,28 @@ class Oracle:
             from xmlschema.validators.facets import XsdPatternFacets
             XsdPatternFacets.__call__ = self._orig
             self.installed = False
+
+    def table(self, tj: Any) -> list:
+        """`rxs` of a request: the groups of the subset used by the type `tj`"""
+        memo = self.__dict__.setdefault('_tables', {})
+        if id(tj) in memo and memo[id(tj)][0] is tj:
+            return memo[id(tj)][1]
+        ids: set = set()
+
+        def walk(j: Any) -> None:
+            if isinstance(j, dict):
+                if isinstance(j.get('pat'), int):
+                    ids.add(j['pat'])
+                for v in j.values():
+                    walk(v)
+            elif isinstance(j, list):
+                for v in j:
+                    walk(v)
+        walk(tj)
+        out = [[i, [rx_json(r) for r in self.rxs[i]]] for i in sorted(ids) if i in self.rxs]
+        if tj is not None:
+            memo[id(tj)] = (tj, out)
+        return out
 
     def wrap_float(self, xsd_type: Any) -> None:
         """record float() acceptance of the float/double built-ins (value space not modelled)"""
@@ -256,8 +284,7 @@ def type_json(t: Any, oracle: Oracle, depth: int = 0) -> dict:
             raise Unsupported('complex base')
         if t.name in (XSD + 'anyAtomicType',):
             raise Unsupported('anyAtomicType')
-        if t.patterns is not None and isinstance(t.primitive_type, S.XsdUnion):
-            raise Unsupported('pattern on a union')
+        # (patterns on a restriction of a union travel through context.patterns: Model/DatatypesPat `decodeS`)
         return {'k': 'r', 'base': type_json(t.base_type, oracle, depth + 1),
                 'ws': t.white_space or 'preserve',
                 'pat': oracle.pid(t.patterns) if t.patterns is not None else None,
@@ -271,6 +298,302 @@ def type_json(t: Any, oracle: Oracle, depth: int = 0) -> dict:
             raise Unsupported('union facets')
         return {'k': 'u', 'members': [type_json(m, oracle, depth + 1) for m in t.member_types]}
     raise Unsupported('type %r' % (t,))
+
+
+# ------------------------------------------------------------------------------------------------
+# pattern facets: a regular-expression SUBSET with exact semantics
+#   AST   ('cls', neg, ((lo, hi), ...)) | ('cat', [r, ...]) | ('alt', [r, ...]) | ('rep', r, lo, hi|None)
+#   text  XSD regular expressions made of literal characters, single-character escapes of metacharacters,
+#         '.', character classes [..] / [^..] of characters and ranges, groups ( ), alternation |,
+#         quantifiers ? * + {n} {n,} {n,m}.  Anything else (\d \s \w \i \c \p{..}, class subtraction,
+#         multi-character escapes in classes) is OUTSIDE the subset: `rx_parse` returns None and the pattern
+#         stays an oracle (the implementation's own verdict, differential only).
+#   `rx_parse` + `rx_match` are the independent reading of the pattern facet; the same AST is sent to the Lean
+#   model (`rx_json`), which evaluates it with its verified derivative matcher.
+# ------------------------------------------------------------------------------------------------
+
+_RX_META = set('\\|.-^?*+{}()[]')
+_RX_CLASS_ESC = set('\\[]^-')
+RX_ANY = ('cls', True, ((10, 10), (13, 13)))       # '.' : every character except LF and CR
+
+
+class _RxOut(Exception):
+    pass
+
+
+def rx_parse(text: str) -> Any:
+    """AST of an XSD pattern of the subset, None when the pattern is outside it"""
+    pos = 0
+    n = len(text)
+
+    def peek() -> str:
+        return text[pos] if pos < n else ''
+
+    def esc_char() -> int:
+        nonlocal pos
+        pos += 1
+        if pos >= n:
+            raise _RxOut
+        c = text[pos]
+        pos += 1
+        if c in _RX_META:
+            return ord(c)
+        if c == 'n':
+            return 10
+        if c == 'r':
+            return 13
+        if c == 't':
+            return 9
+        raise _RxOut       # \d \s \w \i \c \p ... : outside the subset
+
+    def cls() -> Any:
+        nonlocal pos
+        pos += 1
+        neg = False
+        if peek() == '^':
+            neg = True
+            pos += 1
+        ranges = []
+        first = True
+        while True:
+            c = peek()
+            if c == '':
+                raise _RxOut
+            if c == ']' and not first:
+                pos += 1
+                break
+            first = False
+            if c == '[':
+                raise _RxOut
+            if c == '\\':
+                lo = esc_char()
+            elif c == '-' and text[pos + 1:pos + 2] == '[':
+                raise _RxOut       # class subtraction
+            else:
+                lo = ord(c)
+                pos += 1
+            hi = lo
+            if peek() == '-' and text[pos + 1:pos + 2] not in (']', '['):
+                pos += 1
+                c2 = peek()
+                if c2 == '':
+                    raise _RxOut
+                if c2 == '\\':
+                    hi = esc_char()
+                else:
+                    hi = ord(c2)
+                    pos += 1
+                if hi < lo:
+                    raise _RxOut
+            elif peek() == '-' and text[pos + 1:pos + 2] == '[':
+                raise _RxOut
+            ranges.append((lo, hi))
+        if not ranges:
+            raise _RxOut
+        return ('cls', neg, tuple(ranges))
+
+    def atom() -> Any:
+        nonlocal pos
+        c = peek()
+        if c == '(':
+            pos += 1
+            if text[pos:pos + 1] == '?':
+                raise _RxOut
+            r = alt()
+            if peek() != ')':
+                raise _RxOut
+            pos += 1
+            return r
+        if c == '[':
+            return cls()
+        if c == '.':
+            pos += 1
+            return RX_ANY
+        if c == '\\':
+            k = esc_char()
+            return ('cls', False, ((k, k),))
+        if c in '?*+{}|)]' or c == '':
+            raise _RxOut
+        pos += 1
+        return ('cls', False, ((ord(c), ord(c)),))
+
+    def piece() -> Any:
+        nonlocal pos
+        r = atom()
+        c = peek()
+        if c == '?':
+            pos += 1
+            return ('rep', r, 0, 1)
+        if c == '*':
+            pos += 1
+            return ('rep', r, 0, None)
+        if c == '+':
+            pos += 1
+            return ('rep', r, 1, None)
+        if c == '{':
+            m = re.compile(r'\{([0-9]+)(,([0-9]*))?\}').match(text, pos)
+            if not m:
+                raise _RxOut
+            pos = m.end()
+            lo = int(m.group(1))
+            hi = lo if m.group(2) is None else (int(m.group(3)) if m.group(3) else None)
+            if (hi is not None and hi < lo) or lo > 40 or (hi or 0) > 40:
+                raise _RxOut
+            return ('rep', r, lo, hi)
+        return r
+
+    def cat() -> Any:
+        items = []
+        while peek() not in ('', '|', ')'):
+            items.append(piece())
+        return items[0] if len(items) == 1 else ('cat', items)
+
+    def alt() -> Any:
+        nonlocal pos
+        branches = [cat()]
+        while peek() == '|':
+            pos += 1
+            branches.append(cat())
+        return branches[0] if len(branches) == 1 else ('alt', branches)
+
+    try:
+        r = alt()
+        if pos != n:
+            return None
+        return r
+    except (_RxOut, RecursionError):
+        return None
+
+
+def rx_json(r: Any) -> dict:
+    if r[0] == 'cls':
+        return {'k': 'cls', 'neg': r[1], 'r': [[a, b] for a, b in r[2]]}
+    if r[0] in ('cat', 'alt'):
+        return {'k': r[0], 'a': [rx_json(x) for x in r[1]]}
+    return {'k': 'rep', 'r': rx_json(r[1]), 'lo': r[2], 'hi': r[3]}
+
+
+def _rx_ends(r: Any, s: str, starts: set) -> set:
+    """end positions of the matches of `r` in `s` that begin at one of `starts`"""
+    if not starts:
+        return set()
+    if r[0] == 'cls':
+        out = set()
+        for i in starts:
+            if i < len(s):
+                k = ord(s[i])
+                if any(a <= k <= b for a, b in r[2]) != r[1]:
+                    out.add(i + 1)
+        return out
+    if r[0] == 'cat':
+        cur = starts
+        for x in r[1]:
+            cur = _rx_ends(x, s, cur)
+        return cur
+    if r[0] == 'alt':
+        out = set()
+        for x in r[1]:
+            out |= _rx_ends(x, s, starts)
+        return out
+    _, x, lo, hi = r
+    cur = set(starts)
+    for _ in range(lo):
+        cur = _rx_ends(x, s, cur)
+    out = set(cur)
+    k = lo
+    while cur and (hi is None or k < hi):
+        cur = _rx_ends(x, s, cur) - out
+        out |= cur
+        k += 1
+    return out
+
+
+def rx_match(r: Any, s: str) -> bool:
+    """the whole text is in the language of the pattern (XSD patterns are anchored)"""
+    return len(s) in _rx_ends(r, s, {0})
+
+
+def rx_group(patterns: Any) -> Any:
+    """ASTs of the patterns of one XsdPatternFacets group (alternatives), None if one is outside the subset"""
+    out = []
+    for p in patterns:
+        r = rx_parse(p)
+        if r is None:
+            return None
+        out.append(r)
+    return out
+
+
+def rx_xsd(r: Any, ctx: str = 'alt') -> str:
+    """XSD regular-expression text of an AST (characters restricted to printable ASCII by the generators)"""
+    if r[0] == 'cls':
+        neg, ranges = r[1], r[2]
+        if r == RX_ANY:
+            return '.'
+        if not neg and len(ranges) == 1 and ranges[0][0] == ranges[0][1]:
+            c = chr(ranges[0][0])
+            return '\\' + c if c in _RX_META else c
+
+        def one(k: int) -> str:
+            c = chr(k)
+            return '\\' + c if c in _RX_CLASS_ESC else c
+        body = ''.join(one(a) if a == b else one(a) + '-' + one(b) for a, b in ranges)
+        return '[' + ('^' if neg else '') + body + ']'
+    if r[0] == 'alt':
+        t = '|'.join(rx_xsd(x, 'alt') for x in r[1])
+        return t if ctx == 'alt' else '(' + t + ')'
+    if r[0] == 'cat':
+        t = ''.join(rx_xsd(x, 'cat') for x in r[1])
+        return t if ctx in ('alt', 'cat') else '(' + t + ')'
+    _, x, lo, hi = r
+    q = {(0, 1): '?', (0, None): '*', (1, None): '+'}.get((lo, hi))
+    if q is None:
+        q = '{%d}' % lo if hi == lo else '{%d,}' % lo if hi is None else '{%d,%d}' % (lo, hi)
+    inner = rx_xsd(x, 'rep')
+    if x[0] == 'rep':
+        inner = '(' + inner + ')'
+    return inner + q
+
+
+def rx_random(rng: Any, depth: int = 0) -> Any:
+    """a seeded AST of the subset over a small alphabet"""
+    k = rng.random()
+    if depth >= 3 or k < 0.35:
+        j = rng.random()
+        if j < 0.4:
+            c = rng.choice('ab01-. xZ')
+            return ('cls', False, ((ord(c), ord(c)),))
+        if j < 0.5:
+            return RX_ANY
+        pool = [(48, 57), (97, 99), (97, 122), (65, 90), (45, 45), (32, 32), (48, 49), (46, 46)]
+        return ('cls', rng.random() < 0.2, tuple(rng.sample(pool, rng.randrange(1, 4))))
+    if k < 0.6:
+        return ('cat', [rx_random(rng, depth + 1) for _ in range(rng.randrange(2, 4))])
+    if k < 0.75:
+        return ('alt', [rx_random(rng, depth + 1) for _ in range(rng.randrange(2, 4))])
+    lo = rng.choice([0, 0, 1, 1, 2, 3])
+    hi = rng.choice([None, lo, lo + 1, lo + 2])
+    return ('rep', rx_random(rng, depth + 1), lo, hi)
+
+
+def rx_sample(rng: Any, r: Any, depth: int = 0) -> str:
+    """a text of the language of `r` (seeded)"""
+    if r[0] == 'cls':
+        if not r[1]:
+            a, b = rng.choice(r[2])
+            return chr(rng.randrange(a, b + 1))
+        for _ in range(20):
+            c = rng.choice('ab01 -.Z_é')
+            if not any(a <= ord(c) <= b for a, b in r[2]):
+                return c
+        return 'a'
+    if r[0] == 'cat':
+        return ''.join(rx_sample(rng, x, depth + 1) for x in r[1])
+    if r[0] == 'alt':
+        return rx_sample(rng, rng.choice(r[1]), depth + 1)
+    _, x, lo, hi = r
+    k = rng.randrange(lo, (lo + 3 if hi is None else hi) + 1)
+    return ''.join(rx_sample(rng, x, depth + 1) for _ in range(k))
 
 
 # ------------------------------------------------------------------------------------------------
